@@ -27,7 +27,7 @@ WHICH = ['new', 'update_cs0', 'update_cs1', 'unknown_handle']
 
 
 def obligations(tier):
-    t = 120 if tier == 'quick' else 900
+    t = 240 if tier == 'quick' else 900
     obs = [Ob('C10.set_location.once', 'harness.C10', 'set_location_step', bind={'twice': False}, timeout=t, functions=F, stubs=ST,
               bounds='2 location states with any of 4 associations each, unbinding version present/absent with unconstrained value, '
                      'sv, mv in N', claim='invariant + transition obligations after set_location'),
@@ -36,20 +36,21 @@ def obligations(tier):
     for w1, name in enumerate(WHICH):
         obs.append(Ob(f'C10.set_context_state.one.{name}', 'harness.C10', 'set_context_state_step', bind={'n': 1, 'w1': w1},
                       timeout=t, functions=F, stubs=ST,
-                      bounds='pre-state as above; 1 proposal (' + name + ') proposing Assoc or Dis',
+                      bounds='pre-state as above; 1 proposal (' + name + ') proposing Assoc, Dis, No (= attribute absent) or Pre',
                       claim='invariant + transition obligations, or the request is rejected and nothing changes'))
     for w1, n1 in enumerate(WHICH[:3]):
         for d2 in (0, 1):
-            for p1 in (0, 1):
-                for p2 in (0, 1):
-                    if tier == 'quick' and (w1, d2, p1, p2) not in ((0, 0, 0, 0), (0, 0, 0, 1), (1, 0, 1, 0), (0, 1, 0, 0)):
+            for p1 in (0, 1, 2, 3):
+                for p2 in (0, 1, 2, 3):
+                    if tier == 'quick' and (w1, d2, p1, p2) not in ((0, 0, 0, 0), (0, 0, 0, 1), (1, 0, 1, 0), (0, 1, 0, 0), (1, 0, 2, 0),
+                                                                    (2, 0, 3, 2)):
                         continue
                     obs.append(Ob(f'C10.set_context_state.two.{n1}.{"same_descr" if d2 == 0 else "other_descr"}.'
-                                  f'{"AD"[p1]}{"AD"[p2]}', 'harness.C10', 'set_context_state_step',
+                                  f'{"ADNP"[p1]}{"ADNP"[p2]}', 'harness.C10', 'set_context_state_step',
                                   bind={'n': 2, 'w1': w1, 'd2': d2, 'p1': p1, 'p2': p2}, timeout=t, functions=F, stubs=ST,
                                   bounds='pre-state as above; 2 proposals: ' + n1 + ' + any of 4 shapes on the ' +
                                          ('same' if d2 == 0 else 'other') + ' descriptor, proposing ' +
-                                         ('Assoc', 'Dis')[p1] + ' / ' + ('Assoc', 'Dis')[p2],
+                                         ('Assoc', 'Dis', 'No', 'Pre')[p1] + ' / ' + ('Assoc', 'Dis', 'No', 'Pre')[p2],
                                   claim='invariant + transitions; two associated proposals for one descriptor are rejected'))
     return obs
 
